@@ -57,3 +57,7 @@ func VerifParseChallenge(chal string) ([]string, error) {
 	}
 	return []string{c.realm, c.domain, c.nonce, c.opaque, c.stale, c.algorithm, c.qop, c.userhash}, nil
 }
+
+// VerifEscapeQuoted / VerifUnquoteParam re-export the quoted-string helpers of digest.go.
+func VerifEscapeQuoted(s string) string { return escapeQuoted(s) }
+func VerifUnquoteParam(v string) string { return unquoteParam(v) }
